@@ -1,10 +1,13 @@
 (* C17 — the access path does not change what is read.
-   A source is a byte string behind a stream interface with two capabilities (seekable, has_readinto); `read_via c e k f`
+   A source is a byte string behind a stream interface with three capabilities (seekable() answers true, it has readinto,
+   it has a seekable method at all — a stream that offers ONLY read() has not); `read_via c e k f`
    is laspy.open(source, read_evlrs = e) followed by read() (k = None) or by a chunk iterator of k points and then read()
    (k = Some k); it returns the result (header fields, VLRs, EVLRs, records — or the error) and the list of the methods
    called on the source. `read_mmap` is laspy.mmap, `mmap_set` an assignment through the mapped record array
    (Model/Access.v). `laid_out f rh`: f is a string of bytes whose header parses to rh, uncompressed, all announced points
-   present; `evlrs_adjacent rh`: the first EVLR starts right after the last point. *)
+   present; `evlrs_adjacent rh`: the first EVLR starts right after the last point; `needs_evlrs rh`: a 1.4 header that
+   announces EVLRs; `can_answer c rh`: the source has a seekable method, or the file has no EVLR to fetch (the library then
+   never asks); `open_via c e f` is laspy.open alone: the header shown before anything is read. *)
 From Coq Require Import String.
 From Coq Require Import ZArith List Bool.
 From LasV Require Import Lib.Base Lib.Layout Gen.GenFormatBits Gen.GenAccess Model.Las Model.LasSpec Model.Access Proofs.AccessProofs.
@@ -16,6 +19,7 @@ Open Scope Z_scope.
    that offers only read(); a stream without readinto), whether EVLRs are loaded at opening or deferred to read(), whole
    or chunked reading: the same header, VLRs, EVLRs and records (or the same error). Files with zero points included. *)
 Theorem C17_independent : forall f rh c c' e e' k k', laid_out f rh -> evlrs_adjacent rh ->
+  can_answer c rh -> can_answer c' rh ->
   fst (read_via c e k f) = fst (read_via c' e' k' f).
 Proof. exact access_path_independent. Qed.
 Print Assumptions C17_independent.
@@ -23,24 +27,49 @@ Print Assumptions C17_independent.
 (* ... and that common result is what the file model's reader (the one of the round-trip property C01) reads. A source
    that can seek does not need the EVLRs to be adjacent: with a gap after the last point the seek-based path is used,
    also when the loading was deferred to read(). *)
-Theorem C17_reads_the_file : forall c e k f rh, laid_out f rh -> (c_seekable c = true \/ evlrs_adjacent rh) ->
+Theorem C17_reads_the_file : forall c e k f rh, laid_out f rh -> (c_seekable c = true \/ evlrs_adjacent rh) -> can_answer c rh ->
   fst (read_via c e k f) = read_file f.
 Proof. exact read_via_spec. Qed.
 Print Assumptions C17_reads_the_file.
 
 (* zero points: the header and the EVLRs come through every path, no record *)
-Theorem C17_zero_points : forall f rh c e k, laid_out f rh -> evlrs_adjacent rh -> h_count rh <= 0 ->
+Theorem C17_zero_points : forall f rh c e k, laid_out f rh -> evlrs_adjacent rh -> can_answer c rh -> h_count rh <= 0 ->
   fst (read_via c e k f) = match evlrs_of f rh with Ok ev => Ok (mkLF (with_evlrs rh ev) []) | Err er => Err er end.
 Proof. exact zero_points_read. Qed.
 Print Assumptions C17_zero_points.
 
-(* a source that says it cannot seek is never asked to seek or tell — for every byte string, well formed or not *)
-Theorem C17_no_seek : forall c e chunk src, c_seekable c = false -> no_seek_tell (snd (read_via c e chunk src)) = true.
+(* the header shown right after laspy.open (nothing read yet) is the file's through every source: EVLRs loaded exactly when
+   that was asked for and the source can seek — or there is none to load: then it is the empty list, never None, whatever
+   the source —, left to read() (None) otherwise. Two sources that agree on seekable() (or any two, for a file without
+   EVLRs) show the same header. *)
+Theorem C17_open_stage : forall f rh c e, laid_out f rh -> can_answer c rh ->
+  fst (open_via c e f) = if loads_at_open c e rh
+                         then match evlrs_of f rh with Ok ev => Ok (with_evlrs rh ev) | Err er => Err er end
+                         else Ok rh.
+Proof. exact open_stage. Qed.
+Print Assumptions C17_open_stage.
+
+Theorem C17_open_stage_independent : forall f rh c c' e, laid_out f rh -> can_answer c rh -> can_answer c' rh ->
+  (needs_evlrs rh = false \/ c_seekable c = c_seekable c') ->
+  fst (open_via c e f) = fst (open_via c' e f).
+Proof. exact open_stage_independent. Qed.
+Print Assumptions C17_open_stage_independent.
+
+(* the one case can_answer excludes, as the code is: a source without a seekable method and a file with EVLRs — the
+   library has to ask, at opening or in read(), and the AttributeError (EOther) is the outcome by every route *)
+Theorem C17_bare_source_needs_seekable : forall c e chunk f rh, laid_out f rh -> c_has_seekable c = false -> needs_evlrs rh = true ->
+  fst (read_via c e chunk f) = Err EOther.
+Proof. exact bare_source_needs_seekable. Qed.
+Print Assumptions C17_bare_source_needs_seekable.
+
+(* a source that says it cannot seek (or cannot even say) is never asked to seek or tell — for every byte string, well formed or not *)
+Theorem C17_no_seek : forall c e chunk src, c_seekable c = false \/ c_has_seekable c = false ->
+  no_seek_tell (snd (read_via c e chunk src)) = true.
 Proof. exact no_seek_when_not_seekable. Qed.
 Print Assumptions C17_no_seek.
 
 (* the memory map shows the same thing as the streams: header count records (trailing EVLR bytes are not records), EVLRs loaded *)
-Theorem C17_mmap_same : forall f rh c e k, laid_out f rh -> evlrs_adjacent rh -> read_mmap f = fst (read_via c e k f).
+Theorem C17_mmap_same : forall f rh c e k, laid_out f rh -> evlrs_adjacent rh -> can_answer c rh -> read_mmap f = fst (read_via c e k f).
 Proof. exact mmap_same_as_streams. Qed.
 Print Assumptions C17_mmap_same.
 
@@ -92,17 +121,21 @@ Proof. repeat split. Qed.
 Print Assumptions C17_source_shapes.
 
 (* a file written by laspy (1.4, format 6, two points, one EVLR), read through a read-only stream in chunks of one point
-   with deferred EVLRs: same result as the reader of the file model, two records, one EVLR, and exactly these calls *)
+   with deferred EVLRs: same result as the reader of the file model, two records, one EVLR, and exactly these calls; what
+   laspy.open alone shows through a non-seekable and a seekable source; a source without seekable() fails after the points *)
 Example C17_nonvacuous :
   laid_out sample_file sample_header /\ evlrs_adjacent sample_header
-  /\ fst (read_via (mkCaps false false) false (Some 1) sample_file) = read_file sample_file
+  /\ fst (read_via (mkCaps false false true) false (Some 1) sample_file) = read_file sample_file
   /\ (match read_file sample_file with
       | Ok lf => (length (lf_points lf) = 2%nat /\ option_map (@length vlr) (rh_evlrs (lf_h lf)) = Some 1%nat)
       | Err _ => False end)
-  /\ snd (read_via (mkCaps false false) false (Some 1) sample_file)
+  /\ snd (read_via (mkCaps false false true) false (Some 1) sample_file)
      = [ORead 227; ORead 148; ORead 30; ORead 30; OSeekable; ORead 2; ORead 16; ORead 2; ORead 8; ORead 32; ORead 3]
-  /\ snd (read_via (mkCaps true true) true None sample_file)
-     = [ORead 227; ORead 148; OSeekable; OTell; OSeek 435; ORead 2; ORead 16; ORead 2; ORead 8; ORead 32; ORead 3; OSeek 375; OReadInto 60].
+  /\ snd (read_via (mkCaps true true true) true None sample_file)
+     = [ORead 227; ORead 148; OSeekable; OTell; OSeek 435; ORead 2; ORead 16; ORead 2; ORead 8; ORead 32; ORead 3; OSeek 375; OReadInto 60]
+  /\ open_via (mkCaps false false true) true sample_file = (Ok sample_header, [ORead 227; ORead 148; OSeekable; OSeekable])
+  /\ option_map (@length vlr) (match fst (open_via (mkCaps true true true) true sample_file) with Ok rh => rh_evlrs rh | Err _ => None end) = Some 1%nat
+  /\ read_via (mkCaps false false false) false (Some 1) sample_file = (Err EOther, [ORead 227; ORead 148; ORead 30; ORead 30]).
 Proof.
   split; [exact (proj1 sample_laid_out)|]. split; [exact (proj2 sample_laid_out)|].
   vm_compute. repeat split.
